@@ -161,6 +161,25 @@ def check_cases(run: Run, R, cases, activation):
         if r1b[0] != r1[0] or (r1[0] == "ok" and not same_time(r1b[1], r1[1])):
             run.violation("decay_time of a sample changed after another sample was activated: %r then %r" % (r1, r1b),
                           dict(inp, target=target), clause="independent-of-other-samples")
+        # a history of questions on one sample: a high target first, then lower ones down to the level
+        # of the weakest product – each answer is the one a fresh sample gives
+        try:
+            s3 = calc(activation, formula, atoms, mass, fl, cd, fr, t, rests)
+            pos = [v for _, v in a0 if v > 0]
+            seq = [5 * total0, target, 2 * target] + ([0.5 * min(pos), target] if pos else [])
+            for tg in seq:
+                if not (tg > 0) or tg == float("inf"):
+                    continue
+                got = decay(s3, tg)
+                ref = decay(calc(activation, formula, atoms, mass, fl, cd, fr, t, rests), tg)
+                if got[0] != ref[0] or (got[0] == "ok" and not same_time(got[1], ref[1])):
+                    run.violation("decay_time(%r) on a sample that answered other targets before is %r, a fresh "
+                                  "sample gives %r" % (tg, got, ref),
+                                  dict(inp, target=target, targets=seq), clause="independent-of-earlier-questions")
+                    break
+        except Exception as e:  # noqa
+            if not isinstance(e, (ValueError, ZeroDivisionError, OverflowError)):
+                raise
         rem = getattr(s1, "_activity_at_removal", None)
         feed = [(R.index_of[id(k)], v) for k, v in rem.items()] if rem is not None else a0
         half = {i: R.fields(i)["Thalf_hrs"] for i, _ in feed}
